@@ -17,6 +17,10 @@
 (*                 "bad" (malformed), "nonminimal" (MINIMALDATA error raised;*)
 (*                 for a malformed push under vmin either rejection is       *)
 (*                 accepted: the property only says it must not be read)     *)
+(*   walk          ScriptTools.get_opcodes over the whole script: the logged  *)
+(*                 <<pc, new pc>> steps; it must terminate, the cursor must  *)
+(*                 move forward in every step, and up to the first malformed *)
+(*                 instruction the steps are the spec's instructions         *)
 (*   asm           disassemble the script, compile the text: logged tokens   *)
 (*                 and recompiled bytes                                      *)
 (* Ground truth recorded from Bitcoin Core (tests/btc/data/script_tests.json)*)
@@ -57,6 +61,13 @@ TGetOp ==
           /\ Cur.nodata = ~IsPush(r)
           /\ IsPush(r) => Cur.data = PushedValue(r)
   /\ UNCHANGED scr
+TWalk ==
+  /\ Cur.a = "walk" /\ ~Cur.hang
+  /\ \A i \in 1..Len(Cur.steps) : Cur.steps[i][2] > Cur.steps[i][1]
+  /\ LET p == Parse(scr, 0) IN
+     /\ \A i \in 1..Len(p) : p[i].ph = "done" => (i <= Len(Cur.steps) /\ Cur.steps[i] = <<p[i].at, p[i].pc>>)
+     /\ WellFormed(scr) => Len(Cur.steps) = Len(p)
+  /\ UNCHANGED <<scr, pc>>
 TAsm ==
   /\ Cur.a = "asm"
   /\ Claimed(scr) => Cur.re = scr
@@ -76,7 +87,7 @@ TCoreNumArg == Cur.a = "core_numarg" /\
                Stateless(Cur.verdict = (IF Minimal(Cur.b) THEN "OK" ELSE "UNKNOWN_ERROR"))
 
 TNext == /\ l <= Len(Ev)
-         /\ \/ TEnc \/ TDec \/ TNew \/ TPush \/ TRaw \/ TCut \/ TSeek \/ TGetOp \/ TAsm
+         /\ \/ TEnc \/ TDec \/ TNew \/ TPush \/ TRaw \/ TCut \/ TSeek \/ TGetOp \/ TWalk \/ TAsm
             \/ TCoreNum \/ TCorePush \/ TCoreNumArg
          /\ l' = l + 1 /\ UNCHANGED tid
 TSpec == TInit /\ [][TNext]_tvars
